@@ -25,6 +25,10 @@ def gen_behaviour(r, kind, hang=2.0):
         sg = r.choice([signal.SIGSEGV, signal.SIGABRT, signal.SIGKILL, signal.SIGTERM, signal.SIGUSR2])
         return {"sleep": dur, "signal": int(sg)}, "fail"
     if kind == "hang":
+        if r.random() < 0.5:
+            # a graceful shutdown handler: exits with status 0 when nextest terminates it at its
+            # deadline -- still a timeout ("timeout iff nextest terminated it for exceeding its limit")
+            return {"sleep": hang, "exit": 0, "on_term": "exit", "term_exit": 0, "graceful": True}, "timeout"
         return {"sleep": hang, "exit": 0, "on_term": "die"}, "timeout"
     if kind == "leak":
         return {"sleep": dur, "exit": 0, "child": {"for": 0.5, "hold": ["stdout"]}}, "leak"
@@ -68,6 +72,12 @@ def gen_scenario(r, n_tests=None, allow_signal=True, allow_hang=True):
         sc["priorities"] = dict(high=r.choice(["_a", "_b", "_c"]), value=r.choice([10, 50]), low=r.choice(["_a", "_b", "_c"]))
     if allow_signal and r.random() < 0.15:
         sc["sigint_at"] = r.choice([0.05, 0.15, 0.3])
+        for t in tests:
+            for a in t["attempts"]:
+                if a.pop("graceful", None):
+                    # exiting 0 on the forwarded SIGINT would be a genuine pass; keep ground truth simple
+                    a.update(on_term="die")
+                    a.pop("term_exit", None)
     return sc
 
 
@@ -619,6 +629,32 @@ def directed(prop):
         out.append(dict(tests=tests, retries=1, delay_ms=1500, backoff="fixed", failfast="ff", threads=2, filter=None,
                         run_ignored="default", sigint_at=None, priorities=None, groups=None,
                         retry_only="t01_b"))
+        # a cancellation that arrives while a unit is waiting out its retry delay: no further attempt,
+        # and certainly none sooner than the configured delay
+        tests = [dict(bin="alpha::t1", name="t00_a", ignored=False, attempts=[{"sleep": 0.05, "exit": 1}],
+                      expect=["fail"], mode="fail"),
+                 dict(bin="beta::t1", name="t01_b", ignored=False, attempts=[{"sleep": 0.5, "exit": 1}],
+                      expect=["fail"], mode="fail")]
+        out.append(dict(tests=tests, retries=1, delay_ms=1500, backoff="fixed", failfast="ff", threads=2, filter=None,
+                        run_ignored="default", sigint_at=None, priorities=None, groups=None,
+                        retry_only="t00_a"))
+        tests = [dict(bin="alpha::t1", name="t00_a", ignored=False, attempts=[{"sleep": 0.05, "exit": 1}],
+                      expect=["fail"], mode="fail"),
+                 dict(bin="beta::t1", name="t01_b", ignored=False, attempts=[{"sleep": 2.0, "exit": 0, "on_term": "die"}],
+                      expect=["pass"], mode="pass")]
+        out.append(dict(tests=tests, retries=1, delay_ms=1500, backoff="fixed", failfast="noff", threads=2, filter=None,
+                        run_ignored="default", sigint_at=0.6, priorities=None, groups=None,
+                        retry_only="t00_a"))
+    if prop in ("C01", "C03", "C17"):
+        # terminated by nextest at its deadline, exits with status 0 within the grace period: the attempt
+        # timed out, the run failed (exit status 100)
+        tests = [dict(bin="alpha::t1", name="t00_a", ignored=False,
+                      attempts=[{"sleep": 2.0, "exit": 0, "on_term": "exit", "term_exit": 0}],
+                      expect=["timeout"], mode="hang"),
+                 dict(bin="beta::t1", name="t01_b", ignored=False, attempts=[{"sleep": 0.05, "exit": 0}],
+                      expect=["pass"], mode="pass")]
+        out.append(dict(tests=tests, retries=0, delay_ms=0, backoff="fixed", failfast="noff", threads=2, filter=None,
+                        run_ignored="default", sigint_at=None, priorities=None, groups=None))
     return out
 
 
